@@ -48,7 +48,7 @@ def shapes(tier, seed):
             for spv in (LIT, PUP, PLO, PLUS):
                 out.append((carrier, 'root', (), (('p', spn, spv),), False, False, None))
         # two parameters in both orders; related names (prefix + byte sorting below '=')
-        for kind in ('two', 'two-rev', 'prefix', 'prefix-rev', 'dup', 'dup-rev', 'novalue', 'empties'):
+        for kind in ('two', 'two-rev', 'prefix', 'prefix-rev', 'dup', 'dup-rev', 'novalue', 'empties', 'eq-in-value'):
             out.append((carrier, 'root', (), (kind,), False, False, None))
         # extra signed header with redundant spaces; body bytes
         out.append((carrier, 'root', (), (), False, False, 'hdr'))
@@ -147,6 +147,12 @@ def build(ctx, shape):
                      (conc_bytes('k'), [v2], conc_bytes('k'), spell_byte(ctx, v2, PUP, 'qvalue'))]
             for it in (items if spec == 'dup' else items[::-1]):
                 add_pair(*it)
+        elif spec == 'eq-in-value':
+            # a raw '=' inside a value (legal in a query; only the FIRST '=' separates name and value), e.g. base64 padding
+            x = Int('u8', ctx.fresh_bv('ev', 8))
+            ctx.assume(zb(R.unreserved_f(x)))
+            add_pair(conc_bytes('marker'), [x] + conc_bytes('=') + [x] + conc_bytes('=='), conc_bytes('marker'), [x] + conc_bytes('=') + [x] + conc_bytes('=='))
+            add_pair(conc_bytes('f'), conc_bytes('a=b'), conc_bytes('f'), conc_bytes('a%3Db'))
         elif spec == 'novalue':
             add_pair(conc_bytes('flag'), [], conc_bytes('flag'), [], with_eq=False)
             add_pair(conc_bytes('b'), conc_bytes('2'), conc_bytes('b'), conc_bytes('2'))
